@@ -184,7 +184,7 @@ Hex1(n) == SubSeq(<<"0", "1", "2", "3", "4", "5", "6", "7", "8", "9", "a", "b", 
 RawOf(cp) ==
   CASE cp = 233 -> "hi" [] cp = 65533 -> "fffd" [] cp = 127 -> "del" [] cp = 128512 -> "emoji"
     [] cp = 32 -> " " [] cp = 97 -> "a" [] cp = 98 -> "b" [] cp = 101 -> "e" [] cp = 110 -> "n" [] cp = 117 -> "u"
-    [] cp = 65 -> "A" [] cp = 47 -> "/" [] cp = 123 -> "{" [] cp = 58 -> ":" [] cp = 44 -> "," [] cp = 48 -> "0" [] cp = 49 -> "1"
+    [] cp = 65 -> "A" [] cp = 47 -> "/" [] cp = 123 -> "{" [] cp = 58 -> ":" [] cp = 44 -> "," [] cp = 48 -> "0" [] cp = 49 -> "1" [] cp = 57 -> "9"
     [] cp = 45 -> "-"
 \* code point -1 stands for a byte that is not valid UTF-8: written as the escape of U+FFFD (a real U+FFFD is written raw)
 EncChar(cp) ==
